@@ -290,6 +290,15 @@ def pin_probe(prob, pair_vars, matchings, solver=None):
 
 # ------------------------------------------------------------------ audit hook
 
+def _norm(path):
+    """Paths as the audit reports them: absolute (resolved against the working directory at the time of the
+    event) and without redundant separators, so that 'dir/', 'dir//0.txt' and '../x/dir' compare equal."""
+    try:
+        return os.path.abspath(os.fsdecode(path))
+    except Exception:
+        return str(path)
+
+
 class FsAudit:
     def __init__(self):
         self.on = False
@@ -315,11 +324,11 @@ class FsAudit:
                         w = any(c in mode for c in 'wax+')
                     elif isinstance(flags, int):
                         w = bool(flags & (os.O_WRONLY | os.O_RDWR | os.O_CREAT | os.O_APPEND))
-                    aud.events.append(('open_w' if w else 'open_r', str(path)))
+                    aud.events.append(('open_w' if w else 'open_r', _norm(path)))
                 elif event in ('os.mkdir', 'os.rmdir', 'os.remove', 'os.rename',
                                'os.symlink', 'os.link', 'os.truncate', 'shutil.copyfile',
                                'shutil.move', 'os.chmod'):
-                    aud.events.append((event, str(args[0])))
+                    aud.events.append((event, _norm(args[0])))
             except Exception:
                 pass
         sys.addaudithook(hook)
